@@ -57,8 +57,16 @@ def global_reads(modname, qualname):
 
 STATIC = {
     # function -> properties whose statement says "depends only on its arguments / equals the pipeline"
-    "bldfm.solver:steady_state_transport_solver": {"C12", "C15"},
-    "bldfm.solver:ivp_solver": {"C12"},
+    "bldfm.solver:steady_state_transport_solver": {"C01", "C02", "C03", "C04", "C05", "C06", "C07", "C10", "C11", "C12", "C15"},
+    "bldfm.solver:ivp_solver": {"C01", "C02", "C03", "C04", "C05", "C06", "C07", "C10", "C11", "C12"},
+    "bldfm.fft_manager:fft2": {"C02", "C06", "C10", "C12"},
+    "bldfm.fft_manager:ifft2": {"C02", "C06", "C10", "C12"},
+    "bldfm.config_parser:load_config": {"C13"},
+    "bldfm.config_parser:parse_config_dict": {"C13"},
+    "bldfm.config_parser:latlon_to_xy": {"C17"},
+    "bldfm.io:save_footprints_to_netcdf": {"C18"},
+    "bldfm.ffm_kormann_meixner:estimateFootprint": {"C19"},
+    "bldfm.utils:get_source_area": {"C20"},
     "bldfm.interface:run_bldfm_single": {"C13", "C12"},
     "bldfm.interface:run_bldfm_timeseries": {"C14"},
     "bldfm.interface:run_bldfm_multitower": {"C14"},
